@@ -309,6 +309,20 @@ def make_intent(rng, name, D, N, L=None, dt=None, variant=0, order=None):
     return it
 
 
+HALF_FRACTION = {"reaction.AllenCahn", "reaction.CahnHilliard", "reaction.SwiftHohenberg", "reaction.GrayScott"}
+
+
+def nontrivial_N(name, N):
+    """Smallest grid size >= N (same parity where possible) on which the class's nonlinear term keeps at least one non-constant mode:
+    the retained band is |k| <= fraction*(N//2) - 1, i.e. N >= 6 for the 2/3 rule and N >= 8 for the 1/2 rule (below that the nonlinearity only sees the mean)."""
+    if SPECS[name]["linear"]:
+        return N
+    need = 8 if name in HALF_FRACTION else 6
+    if N >= need:
+        return N
+    return need + ((N - need) % 2)
+
+
 CONTOURS = [(32, 1.0), (16, 0.5), (24, 2.0), (64, 0.25)]
 
 
